@@ -14,32 +14,194 @@ RULE = ("Generated conforming tetrahedral meshes (single/two tets, fans around a
         "parity all-positive / all-negative / mixed) x neighbourhood sorting on/off x a generated query sequence on a fresh "
         "mesh + full sweep in shuffled kind order on a second fresh mesh + boundary extraction (boundary connectivity object "
         "and standalone extractor). One base shape is a 3x3x3 block of cubes with the centre cube missing (boundary with a cavity "
-        "component). Size regime (huge): Kuhn grids with > 65536 cells but < 65536 vertices (24^3 vertices, 73002 cells) and slabs, "
-        "vertex_to_cell for every vertex, cell / face / edge tables sampled at both ends of the id range, border lists. "
-        "non-trivial = >=2 cells and >=1 interior face (huge: > 65536 cells or vertices); distinct = distinct (cells, sort, sequence).")
+        "component). Argument spellings: element ids as int / numpy int64 / numpy int32 (per case, also for the boundary connectivity "
+        "object); cell rows as list / tuple / numpy int64 / numpy int32 rows, vertex rows as list / tuple / numpy; the mesh constructor "
+        "and the standalone extractor called positionally or by their documented keyword (data= / mesh=); in_cell_index, edge_id, "
+        "is_cell_tet and the boundary object's in_face_index by position or by documented keyword; the config flags (sort_neighborhoods, "
+        "duplicate-attribute switch) as bool / numpy.bool_ / 0-1; the vertices of a face go to face_id unpacked, as ONE re-iterable "
+        "container (list / tuple / numpy / set / frozenset / dict keys / deque / the mesh's own face row) or as ONE one-shot iterator "
+        "(iter / generator / map / reversed / chain), and vertex tuples that are no face (arbitrary triple, 2 or 4 vertices) / no edge "
+        "(arbitrary pair, u == u) must give None. Query kind 'chained': the arguments are the library's own answers handed on exactly as "
+        "they came (cells of a face -> cell_to_face / in_cell_face_index / other_face_side; neighbours of a cell -> common_face -> "
+        "face_to_cells; the vertex row of a cell -> in_cell_index / face_id / is_face_on_border / edge_id / vertex_to_cell; the mesh's "
+        "own edge row -> edge_id / is_edge_on_border, cells and faces around the edge -> cell_to_edge / face_to_cells; cells of a vertex "
+        "-> in_cell_index; elements of the border / interior lists -> the is_*_on_border tests, n_F2C, other_face_side), every "
+        "intermediate and final answer compared with the reference. Histories: a query may be issued twice in a row; "
+        "enable_boundary_connectivity and extract_boundary_of_volume also occur INSIDE the query sequence; the boundary object / the "
+        "extractor run on a fresh mesh, on the mesh that answered the sequence, on the swept mesh or (extractor) on the mesh whose "
+        "boundary object was just built; enable_boundary_connectivity twice before anything is read, and again after everything was "
+        "read. The boundary object is asked at the boundary elements with boundary index 0 and the last one and volume id min / max. "
+        "Geometry ends (orientation test only): uniform scales 1e-6..1e6, one axis squeezed by 2**-20..2**-40 (exact), coordinates on "
+        "a 2**-10 grid translated by up to 2**40 per axis (exactly representable; the outward oracle is evaluated on the untranslated "
+        "coordinates). Minimal: meshes without cells (no-argument / None / data=None / empty RawMeshData constructor, vertices only). "
+        "Size regime (huge): Kuhn grids with > 65536 cells but < 65536 vertices (24^3 vertices, 73002 cells) and slabs, "
+        "vertex_to_cell for every vertex, cell / face / edge tables sampled at both ends of the id range, border lists, boundary "
+        "extraction; a fan of 66000 cells around ONE edge (closed / open: > 65536 cells, vertices and border faces; the walk around the "
+        "hub edge visits every cell). "
+        "non-trivial = >=2 cells and >=1 interior face (huge: > 65536 cells or vertices; minimal: always); distinct = distinct (cells, sort, sequence).")
 ASSUMPTIONS = ["cells are tetrahedra forming a conforming complex whose boundary is a manifold surface",
-               "'positively oriented' = det(pA-pD,pB-pD,pC-pD) > 0 for a cell (A,B,C,D), the library's own signed volume"]
+               "'positively oriented' = det(pA-pD,pB-pD,pC-pD) > 0 for a cell (A,B,C,D), the library's own signed volume",
+               "ids may be numpy signed integers (int64 / int32) as well as int: that is what iterating numpy index arrays or the rows of a "
+               "mesh built from numpy cells yields, and what the library itself hands out for such a mesh; unsigned / narrower types are not generated",
+               "face_id accepts, besides the documented unpacked integers, ONE iterable of vertex ids (the library builds the key of a face row "
+               "that way itself and reads it once); a vertex tuple that is no face / no edge gets None (docstrings of face_id / edge_id)",
+               "a config flag is any truthy / falsy value of bool, numpy.bool_ or int 0/1",
+               "a mesh without cells is a (vacuously) conforming tetrahedral mesh: its border lists and its boundary surface are empty",
+               "keyword spellings are used only for parameter names a docstring documents (C, V / V1, V2 / ic / F, V / mesh / data)",
+               "the caller's containers are NOT mutated after construction: the mesh shares its rows with the RawMeshData it was built from by design"]
 
 KINDS = ["face_to_cells", "cell_to_face", "cell_to_cell", "edge_to_cell", "edge_to_face", "vertex_to_cell", "cell_to_edge",
          "in_cell_index", "in_cell_face_index", "common_face", "other_face_side", "is_face_on_border", "is_face_on_border_v",
          "is_edge_on_border", "is_edge_on_border_uv", "is_vertex_on_border", "border_faces", "border_edges", "border_vertices",
-         "cell_to_vertex", "face_id", "edge_id", "clear_caches", "n_F2C", "is_tetrahedral", "poke_invalid"]
+         "cell_to_vertex", "face_id", "edge_id", "clear_caches", "n_F2C", "is_tetrahedral", "poke_invalid",
+         "chained", "enable_boundary", "extract_boundary"]
+SEQ_KINDS = KINDS + ["chained", "chained", "face_id"]
+N_CHAIN = 6          # variants of the 'chained' kind
+
+ID_TYPES = ("int", "int64", "int32")
+FLAG_FORMS = ("bool", "numpy_bool", "int")
+# how the vertices of a face are handed to face_id: unpacked integers, ONE re-iterable container, or ONE one-shot iterator
+FACE_ID_FORMS = ["unpacked", "list", "tuple", "numpy", "set", "frozenset", "dict_keys", "deque", "own-row",
+                 "iter", "generator", "map", "reversed", "chain"]
+ONE_SHOT_FORMS = ("iter", "generator", "map", "reversed", "chain")
+REITERABLE_FORMS = ("list", "tuple", "numpy", "set", "frozenset", "dict_keys", "deque", "own-row")
+NONFACE_VARIANTS = ("arbitrary-triple", "face-minus-one-vertex", "face-plus-one-vertex")
+GRID = 1024.0        # coordinates of translated meshes live on a 2**-10 grid
+
+
+def quantised(V, C):
+    """V rounded to the 2**-10 grid if that keeps the mesh valid and no cell loses more than half its volume, else None"""
+    Vq = [[round(x * GRID) / GRID for x in v] for v in V]
+    d0 = [GT.lib_det(V, c) for c in C]; d1 = [GT.lib_det(Vq, c) for c in C]
+    if all(x * y > 0 and abs(y) >= 0.5 * abs(x) for x, y in zip(d0, d1)) and GT.valid(Vq, C):
+        return Vq
+    return None
 
 
 @st.composite
 def case_strategy(draw, max_cells=40):
     t = draw(GT.tets(max_cells=max_cells))
-    first = draw(st.sampled_from(KINDS))
-    rest = draw(st.lists(st.tuples(st.sampled_from(KINDS), st.integers(0, 10 ** 6), st.integers(0, 10 ** 6)), min_size=5, max_size=40))
-    return {"V": t["V"], "C": t["C"], "tags": t["tags"], "sort": draw(st.booleans()),
-            "queries": [[first, draw(st.integers(0, 10 ** 6)), draw(st.integers(0, 10 ** 6))]] + [list(q) for q in rest],
-            "sweep_seed": draw(st.integers(0, 1000)), "form": draw(st.sampled_from(["list", "tuple", "numpy"])), "np_ids": draw(st.integers(0, 3)) == 0,
+    first = draw(st.sampled_from(SEQ_KINDS))
+    qs = st.tuples(st.sampled_from(SEQ_KINDS), st.integers(0, 10 ** 6), st.integers(0, 10 ** 6), st.integers(0, 10 ** 6))
+    rest = draw(st.lists(qs, min_size=5, max_size=40))
+    V = t["V"]
+    via = draw(st.sampled_from([None, None, None, "tet", "mesh", "geogram_ascii"]))
+    scale = draw(st.sampled_from([1.0, 1.0, 1.0, 1e-6, 1e-3, 1e3, 1e6]))
+    # geometry ends of the orientation test, exact by construction: one axis squeezed by a power of two; grid coordinates translated far away
+    geo = draw(st.sampled_from([None, None, None, None, None, "offset", "offset", "squeeze"]))
+    offset = squeeze = None
+    if geo == "offset":
+        Vq = quantised(V, t["C"])
+        if Vq is not None:
+            V = Vq
+            offset = [draw(st.sampled_from([0, 2 ** 20, -2 ** 30, 2 ** 40, -2 ** 40, 3 * 2 ** 38])) for _ in range(3)]
+            if not any(offset):
+                offset[draw(st.integers(0, 2))] = 2 ** 40
+    elif geo == "squeeze":
+        squeeze = [draw(st.integers(0, 2)), draw(st.sampled_from([20, 30, 40]))]
+    if offset or squeeze:
+        via, scale = None, 1.0         # (what a file keeps of such coordinates is C04's business)
+    return {"V": V, "C": t["C"], "tags": t["tags"], "sort": draw(st.booleans()),
+            "queries": [[first, draw(st.integers(0, 10 ** 6)), draw(st.integers(0, 10 ** 6)), draw(st.integers(0, 10 ** 6))]] + [list(q) for q in rest],
+            "sweep_seed": draw(st.integers(0, 1000)),
+            # cell rows as list / tuple / numpy rows (int64, int32); vertex rows as list / tuple / numpy; constructor argument by position / keyword
+            "form": draw(st.sampled_from(["list", "list", "tuple", "numpy", "numpy32"])), "vform": draw(st.sampled_from(["list", "list", "tuple", "numpy"])),
+            "ctor_kw": draw(st.booleans()),
+            # element ids handed to the queries as plain int or as the numpy integers loops over index arrays produce
+            "id_type": draw(st.sampled_from(["int", "int", "int64", "int32"])),
+            # config flags as bool / numpy.bool_ / 0-1
+            "flag_form": draw(st.sampled_from(["bool", "bool", "numpy_bool", "int"])),
             # how the mesh object under test is produced: directly, or written to a file and loaded back ("however a mesh is built")
-            "via": draw(st.sampled_from([None, None, None, "tet", "mesh", "geogram_ascii"])),
+            "via": via,
             "prequery_before_save": draw(st.booleans()),
-            "scale": draw(st.sampled_from([1.0, 1.0, 1.0, 1e-6, 1e-3, 1e3, 1e6])),
+            "scale": scale, "offset": offset, "squeeze": squeeze,
             "pre_border": draw(st.sampled_from([None, None, None, "bool", "bool", "int"])), "pre_border_seed": draw(st.integers(0, 1000)),
-            "dup_warn": draw(st.integers(0, 3)) == 0}
+            "dup_warn": draw(st.integers(0, 3)) == 0,
+            # which mesh object the boundary connectivity object / the standalone extractor work on
+            "bnd_on": draw(st.sampled_from(["fresh", "fresh", "queried", "swept"])),
+            "ext_on": draw(st.sampled_from(["fresh", "fresh", "queried", "swept", "boundary-enabled"])),
+            "enable_twice": draw(st.booleans())}
+
+
+def id_type_of(case):
+    case = case or {}
+    return case.get("id_type") or ("int64" if case.get("np_ids") else "int")
+
+
+def id_conv(case):
+    """how an integer id of this case is handed to the library"""
+    t = id_type_of(case)
+    return {"int": int, "int64": np.int64, "int32": np.int32}[t]
+
+
+def flag(case, value):
+    """a config flag in the spelling of this case"""
+    f = (case or {}).get("flag_form", "bool")
+    value = bool(value)
+    return np.bool_(value) if f == "numpy_bool" else int(value) if f == "int" else value
+
+
+def as_list(r, what):
+    """the library's answer as a list of its own elements (handed on as they came), validated to be integer ids"""
+    from vlib.runner import MalformedAnswer
+    try:
+        items = list(r)
+    except TypeError as e:
+        raise MalformedAnswer(f"{what}: the library returned {r!r:.200} where a sequence of ids is expected ({e})")
+    ints(items)
+    return items
+
+
+def face_id_form(q):
+    """the argument form a face_id query uses (a function of the query alone; c is mixed so that small values spread over all forms)"""
+    if len(q) > 4:
+        return q[4]
+    c = q[3] if len(q) > 3 else 1
+    return FACE_ID_FORMS[((((c // 4) * 2654435761) % 2 ** 32) >> 16) % len(FACE_ID_FORMS)]
+
+
+def face_id_args(form, elems, own_row, rnd):
+    """the positional arguments of face_id for vertex ids `elems` (a list) in the given form. own_row: the mesh's own row of that
+    face (or None). One-shot forms can be read once only - a fresh one is made for every call."""
+    if form == "unpacked":
+        return tuple(elems)
+    if form == "own-row" and own_row is None:
+        form = "list"
+    if form == "list": one = list(elems)
+    elif form == "tuple": one = tuple(elems)
+    elif form == "numpy": one = np.array([int(x) for x in elems], dtype=(np.int32 if rnd.randrange(2) else np.int64))
+    elif form == "set": one = set(elems)
+    elif form == "frozenset": one = frozenset(elems)
+    elif form == "dict_keys": one = dict.fromkeys(elems).keys()
+    elif form == "deque":
+        import collections
+        one = collections.deque(elems)
+    elif form == "own-row": one = own_row
+    elif form == "iter": one = iter(list(elems))
+    elif form == "generator": one = (x for x in list(elems))
+    elif form == "map": one = map(int, list(elems))
+    elif form == "reversed": one = reversed(list(elems))
+    elif form == "chain":
+        import itertools
+        k = rnd.randrange(len(elems) + 1)
+        one = itertools.chain(list(elems)[:k], list(elems)[k:])
+    else:
+        raise AssertionError(form)
+    return (one,)
+
+
+def bfaces(ref):
+    r = getattr(ref, "_bf_cache", None)
+    if r is None:
+        r = ref._bf_cache = ref.border_faces()
+    return r
+
+
+def bverts(ref):
+    r = getattr(ref, "_bv_cache", None)
+    if r is None:
+        r = ref._bv_cache = ref.border_vertices()
+    return r
 
 
 def rot_ok_cells(seq, ref, ek, closed):
@@ -72,17 +234,22 @@ def rot_ok_faces(seq_keys, ref, ek, closed):
 
 
 def do_query(m, ref, info, sort_on, q, ctx, where):
-    kind, a, b = q
+    """issue one query on mesh m and compare with the reference. q = [kind, a, b] or [kind, a, b, c] or [kind, a, b, c, form]:
+    a, b select the elements, c the spelling (c % 3 == 2: documented keywords; c % 4 == 0: a vertex tuple that is no face / no edge)"""
+    kind, a, b = q[:3]
+    c_ = q[3] if len(q) > 3 else 1
     C = m.connectivity
     mfaces, fid, medges, eid = info
     nV, nC, nF, nE = ref.nV, len(ref.C), len(mfaces), len(medges)
     sig = "q:" + kind
-    np_ids = bool((getattr(ctx, "case", None) or {}).get("np_ids"))
+    conv = id_conv(getattr(ctx, "case", None))
+    by_name = c_ % 3 == 2
 
-    def call(f, *args):
-        if np_ids:
-            args = tuple(np.int64(x) if (isinstance(x, int) and not isinstance(x, bool)) else x for x in args)
-        return ctx.call(sig, f, *args)
+    def cv(x):
+        return conv(x) if (isinstance(x, int) and not isinstance(x, bool)) else x
+
+    def call(f, *args, **kw):
+        return ctx.call(sig, f, *(cv(x) for x in args), **{k: cv(x) for k, x in kw.items()})
 
     if kind == "face_to_cells":
         f = a % nF
@@ -140,7 +307,11 @@ def do_query(m, ref, info, sort_on, q, ctx, where):
         c = a % nC
         cl = ref.C[c]
         v = cl[b % 4] if b % 3 else b % nV
-        ok, r = call(C.in_cell_index, c, v)
+        if by_name:
+            ctx.label("spelling=keyword")
+            ok, r = call(C.in_cell_index, V=v, C=c) if b % 2 else call(C.in_cell_index, C=c, V=v)
+        else:
+            ok, r = call(C.in_cell_index, c, v)
         if ok:
             exp = cl.index(v) if v in cl else None
             ctx.check(r == exp, sig, f"{where}: in_cell_index({c},{v}) = {r!r}, expected {exp!r}")
@@ -210,13 +381,13 @@ def do_query(m, ref, info, sort_on, q, ctx, where):
         v = a % nV
         ok, r = call(m.is_vertex_on_border, v)
         if ok:
-            ctx.check(bool(r) == (v in ref.border_vertices()), sig, f"{where}: is_vertex_on_border({v}) = {r!r}")
+            ctx.check(bool(r) == (v in bverts(ref)), sig, f"{where}: is_vertex_on_border({v}) = {r!r}")
     elif kind == "border_faces":
         ok, bf = call(lambda: m.boundary_faces)
         ok2, jf = call(lambda: m.interior_faces)
         if ok and ok2:
             bf, jf = ints(bf), ints(jf)
-            exp = sorted(fid[fk] for fk in ref.border_faces())
+            exp = sorted(fid[fk] for fk in bfaces(ref))
             ctx.check(sorted(bf) == exp and len(set(bf)) == len(bf), sig, f"{where}: boundary_faces = {bf}, expected {exp}")
             ctx.check(sorted(bf + jf) == list(range(nF)), sig, f"{where}: boundary/interior faces do not partition the face range")
     elif kind == "border_edges":
@@ -232,21 +403,53 @@ def do_query(m, ref, info, sort_on, q, ctx, where):
         ok2, jv = call(lambda: m.interior_vertices)
         if ok and ok2:
             bv, jv = ints(bv), ints(jv)
-            exp = sorted(ref.border_vertices())
+            exp = sorted(bverts(ref))
             ctx.check(sorted(bv) == exp and len(set(bv)) == len(bv), sig, f"{where}: boundary_vertices = {bv}, expected {exp}")
             ctx.check(sorted(bv + jv) == list(range(nV)), sig, f"{where}: boundary/interior vertices do not partition the vertex range")
     elif kind == "face_id":
         f = a % nF
-        vs = list(mfaces[f]); random.Random(b).shuffle(vs)
-        ok, r = call(C.face_id, *vs)
+        rnd = random.Random(b)
+        vs = list(mfaces[f]); rnd.shuffle(vs)
+        form = face_id_form(q)
+        own_row = None
+        if c_ % 4 == 0:
+            # a vertex tuple that is (most likely) not a face: arbitrary vertices, a face without one of its vertices, a face and one more vertex
+            variant = NONFACE_VARIANTS[(c_ // 4 + b) % len(NONFACE_VARIANTS)]
+            if variant == "face-minus-one-vertex":
+                vs = vs[1:]
+            elif variant == "face-plus-one-vertex" and nV > 3:
+                vs.insert(rnd.randrange(4), rnd.choice([w for w in range(nV) if w not in mfaces[f]]))
+            else:
+                variant = "arbitrary-triple"
+                vs = rnd.sample(range(nV), 3)
+            ctx.label("face_id:" + variant)
+        elif form == "own-row":
+            own_row = m.faces[f]
+        exp = fid.get(key(vs)) if len(vs) == 3 else None
+        if exp is None: ctx.label("face_id:expected-None")
+        args = face_id_args(form, [cv(x) for x in vs], own_row, rnd)
+        ctx.label("face_id-form=" + ("unpacked" if form == "unpacked" else "one-shot-iterator" if form in ONE_SHOT_FORMS else "container"))
+        ok, r = ctx.call(sig, C.face_id, *args)
         if ok:
-            ctx.check(r == f, sig, f"{where}: face_id{tuple(vs)} = {r!r}, expected {f}")
+            ctx.check(r == exp and (r is None) == (exp is None), sig, f"{where}: face_id of vertices {vs} handed over as {form} = {r!r}, expected {exp!r}")
+        if ok and form in REITERABLE_FORMS and b % 3 == 0:
+            ok, r = ctx.call(sig, C.face_id, *args)       # the same container once more
+            if ok:
+                ctx.check(r == exp and (r is None) == (exp is None), sig, f"{where}: face_id of vertices {vs} handed over as the same {form} a second time = {r!r}, expected {exp!r}")
     elif kind == "edge_id":
         e = a % nE
         u, v = medges[e] if b % 2 else medges[e][::-1]
-        ok, r = call(C.edge_id, u, v)
+        if c_ % 4 == 0:
+            u, v = (a // 7) % nV, (b // 7) % nV           # an arbitrary pair: mostly no edge; u == v is no edge
+            ctx.label("edge_id:arbitrary-pair")
+        exp = eid.get(key(u, v)) if u != v else None
+        if by_name:
+            ctx.label("spelling=keyword")
+            ok, r = call(C.edge_id, V1=u, V2=v)
+        else:
+            ok, r = call(C.edge_id, u, v)
         if ok:
-            ctx.check(r == e, sig, f"{where}: edge_id({u},{v}) = {r!r}, expected {e}")
+            ctx.check(r == exp and (r is None) == (exp is None), sig, f"{where}: edge_id({u},{v}) = {r!r}, expected {exp!r}")
     elif kind == "poke_invalid":
         bad = [(C.face_to_cells, (nF + 1 + a % 3,)), (C.cell_to_face, (nC + a % 2,)), (C.cell_to_cell, (nC + 1,)), (C.edge_to_cell, (nE + 2,)),
                (C.edge_to_face, (nE,)), (C.vertex_to_cell, (nV + 3,)), (C.cell_to_edge, (nC,)), (C.in_cell_index, (nC + 1, 0)),
@@ -266,11 +469,214 @@ def do_query(m, ref, info, sort_on, q, ctx, where):
             ctx.check(r == len(ref.f2c[mfaces[f]]), sig, f"{where}: n_F2C({f}) = {r}")
     elif kind == "is_tetrahedral":
         ok, r = call(m.is_tetrahedral)
-        ok2, r2 = call(m.is_cell_tet, a % nC)
+        ok2, r2 = call(m.is_cell_tet, ic=a % nC) if by_name else call(m.is_cell_tet, a % nC)
         if ok and ok2:
             ctx.check(bool(r) and bool(r2), sig, f"{where}: is_tetrahedral() = {r}, is_cell_tet = {r2} on a tetrahedral mesh")
+    elif kind == "chained":
+        chained(m, ref, info, a, b, ctx, where, cv)
+    elif kind == "enable_boundary":
+        # building the boundary object in the middle of a history: it must be made of the border faces, and later answers must not change
+        ok, _ = call(m.enable_boundary_connectivity)
+        if ok:
+            bm, bc = m.boundary_mesh, m.boundary_connectivity
+            if ctx.check(bm is not None and bc is not None, sig, f"{where}: boundary_mesh is None after enable_boundary_connectivity()"):
+                b2m = dict(bc.b2m_vertex)
+                got = sorted(key(b2m.get(v, -1) for v in ints(f)) for f in bm.faces)
+                ctx.check(got == sorted(bfaces(ref)), sig, f"{where}: the boundary mesh built in mid-history is not made of the border faces: {got[:6]}.. vs {sorted(bfaces(ref))[:6]}..")
+    elif kind == "extract_boundary":
+        from mouette.processing import border as B
+        if by_name:
+            ctx.label("spelling=keyword")
+            ok, res = call(B.extract_boundary_of_volume, mesh=m)
+        else:
+            ok, res = call(B.extract_boundary_of_volume, m)
+        if ok and ctx.check(isinstance(res, tuple) and len(res) == 3, sig, f"{where}: extract_boundary_of_volume returned {type(res).__name__}, expected (surface, m2b, b2m)"):
+            sm, m2b, b2m = res
+            got = sorted(key(b2m.get(v, -1) for v in ints(f)) for f in sm.faces)
+            ctx.check(got == sorted(bfaces(ref)), sig, f"{where}: the surface extracted in mid-history is not made of the border faces: {got[:6]}.. vs {sorted(bfaces(ref))[:6]}..")
     else:
         raise AssertionError(kind)
+
+
+def chained(m, ref, info, a, b, ctx, where, cv):
+    """the arguments of every call but the first are the library's own answers, handed on exactly as they came"""
+    K = m.connectivity
+    mfaces, fid, medges, eid = info
+    nV, nC, nF, nE = ref.nV, len(ref.C), len(mfaces), len(medges)
+    variant = b % N_CHAIN
+    sig = "q:chained"
+    where = f"{where} chained#{variant}"
+    call = lambda f, *args: ctx.call(sig, f, *args)
+    be = info_border_edges(ref)
+    if variant == 0:
+        # a face -> its cells -> back to the face
+        f = a % nF
+        ok, cs = call(K.face_to_cells, cv(f))
+        if not ok: return
+        cs = as_list(cs, "face_to_cells")
+        exp = sorted(ref.f2c[mfaces[f]])
+        if not ctx.check(sorted(ints(cs)) == exp, sig, f"{where}: face_to_cells({f}) = {cs}, expected {exp}"): return
+        for c in cs:
+            ok, fl = call(K.cell_to_face, c)
+            ok2, row = call(K.cell_to_vertex, c)
+            if not (ok and ok2): return
+            fl, row = as_list(fl, "cell_to_face"), as_list(row, "cell_to_vertex")
+            if not ctx.check(len(fl) == 4 and len(row) == 4 and ints(fl).count(f) == 1, sig, f"{where}: cell_to_face({c!r}) = {fl} does not list face {f} once although face_to_cells({f}) = {cs}"): return
+            i = ints(fl).index(f)
+            ctx.check(int(row[i]) not in mfaces[f] and set(ints(row)) - {int(row[i])} == set(mfaces[f]), sig,
+                      f"{where}: face {f} = {mfaces[f]} is the {i}-th face of cell {c!r} = {row} but not the one opposite its {i}-th vertex")
+            ok, r = call(K.in_cell_face_index, c, f)
+            if ok: ctx.check(r == i and r is not None, sig, f"{where}: in_cell_face_index({c!r},{f}) = {r!r}, cell_to_face says {i}")
+            ok, r = call(K.in_cell_index, c, row[i])
+            if ok: ctx.check(r == i and r is not None, sig, f"{where}: in_cell_index({c!r},{row[i]!r}) = {r!r}, expected {i} (cell row {row})")
+            ok, r = call(K.other_face_side, c, cv(f))
+            if ok:
+                other = [x for x in exp if x != int(c)]
+                e_ = other[0] if len(exp) == 2 else None
+                ctx.check(r == e_ and (r is None) == (e_ is None), sig, f"{where}: other_face_side({c!r},{f}) = {r!r}, expected {e_!r} (face_to_cells = {cs})")
+    elif variant == 1:
+        # a cell -> its neighbours -> the common face -> its cells
+        c = a % nC
+        ok, nb = call(K.cell_to_cell, cv(c))
+        if not ok: return
+        nb = as_list(nb, "cell_to_cell")
+        if not ctx.check(sorted(ints(nb)) == ref.cell_neighbours(c), sig, f"{where}: cell_to_cell({c}) = {nb}, expected {ref.cell_neighbours(c)}"): return
+        for c2 in nb:
+            common = set(ref.C[c]) & set(ref.C[int(c2)])
+            exp = fid.get(key(common)) if len(common) == 3 else None
+            ok, f = call(K.common_face, cv(c), c2) if b % 2 else call(K.common_face, c2, cv(c))
+            if not ok: return
+            if not ctx.check(f == exp and f is not None, sig, f"{where}: common_face of cell {c} and its neighbour {c2!r} = {f!r}, expected {exp!r}"): return
+            ok, cs = call(K.face_to_cells, f)
+            if ok:
+                cs = as_list(cs, "face_to_cells")
+                ctx.check(sorted(ints(cs)) == sorted([c, int(c2)]), sig, f"{where}: face_to_cells(common_face({c},{c2!r}) = {f!r}) = {cs}")
+            ok, r = call(K.other_face_side, c2, f)
+            if ok: ctx.check(r == c and r is not None, sig, f"{where}: other_face_side({c2!r},{f!r}) = {r!r}, expected {c}")
+            ok, r = call(K.other_face_side, cv(c), f)
+            if ok: ctx.check(r == int(c2) and r is not None, sig, f"{where}: other_face_side({c},{f!r}) = {r!r}, expected {c2!r}")
+    elif variant == 2:
+        # a cell -> its vertex row -> indices, faces, edges, cells of the vertices
+        c = a % nC
+        ok, row = call(K.cell_to_vertex, cv(c))
+        ok2, fl = call(K.cell_to_face, cv(c))
+        ok3, el = call(K.cell_to_edge, cv(c))
+        if not (ok and ok2 and ok3): return
+        row, fl, el = as_list(row, "cell_to_vertex"), as_list(fl, "cell_to_face"), as_list(el, "cell_to_edge")
+        if not ctx.check(ints(row) == list(ref.C[c]), sig, f"{where}: cell_to_vertex({c}) = {row}, expected {ref.C[c]}"): return
+        if not ctx.check(len(fl) == 4, sig, f"{where}: cell_to_face({c}) = {fl}"): return
+        for i in range(4):
+            v = row[i]
+            ok, r = call(K.in_cell_index, cv(c), v)
+            if ok: ctx.check(r == i and r is not None, sig, f"{where}: in_cell_index({c},{v!r}) = {r!r}, expected {i} (cell row {row})")
+            others = row[:i] + row[i + 1:]
+            if (a + b + i) % 2: others = others[::-1]
+            fk = key(ints(others))
+            ok, r = call(K.face_id, *others)
+            if ok: ctx.check(r == fid[fk] and r == int(fl[i]) and r is not None, sig, f"{where}: face_id{tuple(others)} = {r!r}, expected {fid[fk]} = cell_to_face({c})[{i}] = {fl[i]!r}")
+            ok, r = call(m.is_face_on_border, *others)
+            if ok: ctx.check(bool(r) == (len(ref.f2c[fk]) == 1), sig, f"{where}: is_face_on_border{tuple(others)} = {r!r}, the face belongs to cells {ref.f2c[fk]}")
+            ok, cs = call(K.vertex_to_cell, v)
+            if ok: ctx.check(c in ints(as_list(cs, "vertex_to_cell")), sig, f"{where}: vertex_to_cell({v!r}) = {cs} does not contain cell {c} = {row}")
+            for j in range(i):
+                ok, r = call(K.edge_id, row[i], row[j])
+                if ok:
+                    e_ = eid[key(int(row[i]), int(row[j]))]
+                    ctx.check(r == e_ and r is not None and e_ in ints(el), sig, f"{where}: edge_id({row[i]!r},{row[j]!r}) = {r!r}, expected {e_}; cell_to_edge({c}) = {el}")
+    elif variant == 3:
+        # the mesh's own edge row -> edge_id / border test; the cells and faces around the edge -> back
+        e = a % nE
+        ok, row = call(lambda: m.edges[e])
+        if not ok: return
+        row = as_list(row, "edges[e]")
+        if not ctx.check(tuple(ints(row)) == medges[e], sig, f"{where}: edges[{e}] = {row}"): return
+        if b % 2: row = row[::-1]
+        ok, r = call(K.edge_id, *row)
+        if ok: ctx.check(r == e and r is not None, sig, f"{where}: edge_id{tuple(row)} = {r!r}, expected {e}")
+        ok, r = call(m.is_edge_on_border, *row)
+        ok2, r2 = call(m.is_edge_on_border, cv(e))
+        if ok and ok2:
+            ctx.check(bool(r) == (medges[e] in be) and bool(r2) == (medges[e] in be), sig,
+                      f"{where}: is_edge_on_border{tuple(row)} = {r!r}, is_edge_on_border({e}) = {r2!r}, expected {medges[e] in be}")
+        ok, cs = call(K.edge_to_cell, cv(e))
+        ok2, fs = call(K.edge_to_face, cv(e))
+        if not (ok and ok2): return
+        cs, fs = as_list(cs, "edge_to_cell"), as_list(fs, "edge_to_face")
+        if not ctx.check(sorted(ints(cs)) == sorted(ref.e2c[medges[e]]) and sorted(ints(fs)) == sorted(fid[fk] for fk in ref.e2f[medges[e]]), sig,
+                         f"{where}: edge_to_cell({e}) = {cs}, edge_to_face({e}) = {fs}; expected {sorted(ref.e2c[medges[e]])}, {sorted(fid[fk] for fk in ref.e2f[medges[e]])}"): return
+        for c in cs[:6] + cs[-2:]:
+            ok, el = call(K.cell_to_edge, c)
+            if ok: ctx.check(e in ints(as_list(el, "cell_to_edge")), sig, f"{where}: cell_to_edge({c!r}) = {el} does not contain edge {e} although edge_to_cell({e}) = {cs}")
+            ok, r = call(K.in_cell_index, c, row[0])
+            if ok: ctx.check(r is not None and r == ref.C[int(c)].index(int(row[0])), sig, f"{where}: in_cell_index({c!r},{row[0]!r}) = {r!r} for cell {ref.C[int(c)]}")
+        for f in fs[:6] + fs[-2:]:
+            ok, fc = call(K.face_to_cells, f)
+            if ok:
+                fc = as_list(fc, "face_to_cells")
+                ctx.check(sorted(ints(fc)) == sorted(ref.f2c[mfaces[int(f)]]) and set(ints(fc)) <= set(ints(cs)), sig, f"{where}: face_to_cells({f!r}) = {fc}; the face is around edge {e} whose cells are {cs}")
+            ok, frow = call(lambda: m.faces[f])
+            if ok:
+                ok, r = call(K.face_id, frow) if b % 3 == 0 else call(K.face_id, *as_list(frow, "faces[f]"))
+                if ok: ctx.check(r == int(f) and r is not None, sig, f"{where}: face_id of the mesh's own face row {frow} = {r!r}, expected {f!r}")
+    elif variant == 4:
+        # a vertex -> its cells -> its index in them
+        v = a % nV
+        ok, cs = call(K.vertex_to_cell, cv(v))
+        if not ok: return
+        cs = as_list(cs, "vertex_to_cell")
+        if not ctx.check(sorted(ints(cs)) == sorted(ref.v2c[v]), sig, f"{where}: vertex_to_cell({v}) = {cs}, expected {sorted(ref.v2c[v])}"): return
+        for c in cs[:6] + cs[-2:]:
+            ok, i = call(K.in_cell_index, c, cv(v))
+            ok2, row = call(K.cell_to_vertex, c)
+            if ok and ok2:
+                row = as_list(row, "cell_to_vertex")
+                ctx.check(i is not None and i == ref.C[int(c)].index(v) and int(row[i]) == v, sig, f"{where}: in_cell_index({c!r},{v}) = {i!r}, cell_to_vertex({c!r}) = {row}")
+        ok, r = call(m.is_vertex_on_border, cv(v))
+        if ok: ctx.check(bool(r) == (v in bverts(ref)), sig, f"{where}: is_vertex_on_border({v}) = {r!r}")
+    else:
+        # elements of the border / interior lists -> the border tests and the tables
+        lists = {}
+        for name in ("boundary_faces", "interior_faces", "boundary_edges", "interior_edges", "boundary_vertices", "interior_vertices"):
+            ok, l = call(lambda: getattr(m, name))
+            if not ok: return
+            lists[name] = as_list(l, name)
+        expd = {"boundary_faces": sorted(fid[fk] for fk in bfaces(ref)), "boundary_edges": sorted(eid[ek] for ek in be), "boundary_vertices": sorted(bverts(ref))}
+        for name, exp in expd.items():
+            other = name.replace("boundary", "interior")
+            n = {"faces": nF, "edges": nE, "vertices": nV}[name.split("_")[1]]
+            if not ctx.check(sorted(ints(lists[name])) == exp and sorted(ints(lists[name]) + ints(lists[other])) == list(range(n)), sig,
+                             f"{where}: {name} = {lists[name][:12]}.., expected {exp[:12]}..; with {other} it must partition range({n})"): return
+        pick = lambda l: [l[i] for i in sorted(set([0, len(l) - 1, a % len(l), (a // 7) % len(l)]))] if l else []
+        for f in pick(lists["boundary_faces"]):
+            ok, r = call(m.is_face_on_border, f)
+            ok2, n = call(K.n_F2C, f)
+            ok3, cs = call(K.face_to_cells, f)
+            ok4, frow = call(lambda: m.faces[f])
+            if not (ok and ok2 and ok3 and ok4): return
+            cs, frow = as_list(cs, "face_to_cells"), as_list(frow, "faces[f]")
+            if not ctx.check(bool(r) and n == 1 and len(cs) == 1, sig, f"{where}: face {f!r} of boundary_faces: is_face_on_border = {r!r}, n_F2C = {n!r}, face_to_cells = {cs}"): return
+            ok, r = call(K.other_face_side, cs[0], f)
+            if ok: ctx.check(r is None, sig, f"{where}: other_face_side({cs[0]!r},{f!r}) = {r!r} for a border face, expected None")
+            ok, r = call(m.is_face_on_border, *frow)
+            if ok: ctx.check(bool(r), sig, f"{where}: is_face_on_border{tuple(frow)} = {r!r} for the row of border face {f!r}")
+            for i in range(3):
+                u, v = frow[i], frow[(i + 1) % 3]
+                ok, r = call(m.is_edge_on_border, u, v)
+                ok2, r2 = call(m.is_vertex_on_border, u)
+                if ok and ok2: ctx.check(bool(r) and bool(r2), sig, f"{where}: border face {f!r} = {frow}: is_edge_on_border({u!r},{v!r}) = {r!r}, is_vertex_on_border({u!r}) = {r2!r}")
+        for f in pick(lists["interior_faces"]):
+            ok, r = call(m.is_face_on_border, f)
+            ok2, cs = call(K.face_to_cells, f)
+            if not (ok and ok2): return
+            cs = as_list(cs, "face_to_cells")
+            if not ctx.check(not bool(r) and len(cs) == 2, sig, f"{where}: face {f!r} of interior_faces: is_face_on_border = {r!r}, face_to_cells = {cs}"): return
+            ok, r = call(K.other_face_side, cs[0], f)
+            if ok: ctx.check(r == int(cs[1]) and r is not None, sig, f"{where}: other_face_side({cs[0]!r},{f!r}) = {r!r}, face_to_cells = {cs}")
+        for name, test, expect in (("boundary_edges", m.is_edge_on_border, True), ("interior_edges", m.is_edge_on_border, False),
+                                   ("boundary_vertices", m.is_vertex_on_border, True), ("interior_vertices", m.is_vertex_on_border, False)):
+            for x in pick(lists[name]):
+                ok, r = call(test, x)
+                if ok: ctx.check(bool(r) == expect, sig, f"{where}: {test.__name__}({x!r}) = {r!r} for an element of {name}")
 
 
 _be_cache = {}
@@ -287,7 +693,7 @@ def info_border_edges(ref):
 
 def build(case):
     import mouette as M
-    M.config.display_duplicate_attribute_warning = bool(case.get("dup_warn", False))
+    M.config.display_duplicate_attribute_warning = flag(case, case.get("dup_warn", False))
     m = _build(case)
     if case.get("pre_border"):
         # attributes called "border" (the name the mesh uses for its own flags) already on the vertices / edges, arbitrary flags
@@ -303,8 +709,8 @@ def build(case):
 
 def _build(case):
     import mouette as M, os, tempfile, shutil
-    M.config.sort_neighborhoods = bool(case["sort"])
-    m = volume_from(case["V"], case["C"], case.get("form", "list"))
+    M.config.sort_neighborhoods = flag(case, case["sort"])
+    m = volume_in_form(case.get("Vlib", case["V"]), case["C"], case.get("form", "list"), case.get("vform", "list"), case.get("ctor_kw", False))
     via = case.get("via")
     if via:
         if case.get("prequery_before_save"):
@@ -324,6 +730,29 @@ def _build(case):
     return m
 
 
+def volume_in_form(V, C, form="list", vform="list", ctor_kw=False):
+    """a fresh VolumeMesh: cell rows as list / tuple / numpy int64 / numpy int32 rows, vertex rows as list / tuple / numpy rows, the
+    constructor's argument by position or by its documented name"""
+    import mouette as M
+    from mouette.mesh.mesh_data import RawMeshData
+    raw = RawMeshData()
+    if vform == "numpy":
+        raw.vertices += [np.array(v, dtype=float) for v in V]
+    elif vform == "tuple":
+        raw.vertices += [tuple(map(float, v)) for v in V]
+    else:
+        raw.vertices += [list(map(float, v)) for v in V]
+    if form == "tuple":
+        raw.cells += [tuple(c) for c in C]
+    elif form == "numpy":
+        raw.cells += [np.array(c, dtype=np.int64) for c in C]
+    elif form == "numpy32":
+        raw.cells += [np.array(c, dtype=np.int32) for c in C]
+    else:
+        raw.cells += [list(c) for c in C]
+    return M.mesh.VolumeMesh(data=raw) if ctor_kw else M.mesh.VolumeMesh(raw)
+
+
 def containers(m, ref, ctx):
     mfaces = [key(f) for f in m.faces]
     medges = [tuple(ints(e)) for e in m.edges]
@@ -334,25 +763,32 @@ def containers(m, ref, ctx):
     return mfaces, {f: i for i, f in enumerate(mfaces)}, medges, {e: i for i, e in enumerate(medges)}, ok
 
 
-def check_boundary_surface(ctx, V, faces_b, b2m_v, ref, what, expect_outward, cells_of_face):
-    """faces_b: boundary faces as tuples of boundary vertex ids; b2m_v maps them to volume ids"""
+def check_boundary_surface(ctx, V, faces_b, b2m_v, ref, what, expect_outward, cells_of_face, light=False):
+    """faces_b: boundary faces as tuples of boundary vertex ids; b2m_v maps them to volume ids. light (size regime): consistent
+    orientation is checked through the half edges only (every one once, its reverse once), not through the vertex links"""
     vol_faces = [tuple(b2m_v[v] for v in f) for f in faces_b]
-    ctx.check(sorted(key(f) for f in vol_faces) == sorted(ref.border_faces()), what + ":faces",
-              f"{what}: faces are not exactly the border faces: {sorted(key(f) for f in vol_faces)[:10]} vs {sorted(ref.border_faces())[:10]}")
+    ctx.check(sorted(key(f) for f in vol_faces) == sorted(bfaces(ref)), what + ":faces",
+              f"{what}: faces are not exactly the border faces: {sorted(key(f) for f in vol_faces)[:10]} vs {sorted(bfaces(ref))[:10]}")
     nb = 1 + max((v for f in faces_b for v in f), default=-1)
-    sref = SurfRef(nb, faces_b)
     if expect_outward:
-        A = np.array(V, dtype=float)
-        for f in vol_faces:
-            cs = ref.f2c[key(f)]
-            if len(cs) != 1:
-                continue
-            cc = np.mean(A[list(ref.C[cs[0]])], axis=0)
-            a, b, c = A[f[0]], A[f[1]], A[f[2]]
-            n = np.cross(b - a, c - a)
-            d = float(np.dot(n, (a + b + c) / 3 - cc))
-            ctx.check(d > 0, what + ":outward", f"{what}: face {f} (volume ids) points into its cell {ref.C[cs[0]]} (n.(cf-cc) = {d:.3g})")
-        err = sref.validate()
+        A = np.array(V, dtype=float).reshape(-1, 3)
+        sel = [(f, ref.C[ref.f2c[key(f)][0]]) for f in vol_faces if len(ref.f2c.get(key(f), ())) == 1]
+        if sel:
+            F_ = np.array([f for f, _ in sel], dtype=np.int64).reshape(-1, 3)
+            cc = A[np.array([c for _, c in sel], dtype=np.int64)].mean(axis=1)
+            a, b, c = A[F_[:, 0]], A[F_[:, 1]], A[F_[:, 2]]
+            d = np.einsum("ij,ij->i", np.cross(b - a, c - a), (a + b + c) / 3 - cc)
+            bad = np.nonzero(~(d > 0))[0]
+            if len(bad):
+                k = int(bad[0])
+                ctx.check(False, what + ":outward", f"{what}: face {sel[k][0]} (volume ids) points into its cell {sel[k][1]} (n.(cf-cc) = {float(d[k]):.3g}); {len(bad)} such faces")
+            else:
+                ctx.check(True, what + ":outward", "")
+        if light:
+            he = Counter((f[i], f[(i + 1) % 3]) for f in faces_b for i in range(3))
+            err = None if all(n == 1 and he.get((b, a)) == 1 for (a, b), n in he.items()) else "a half edge occurs twice or has no reverse half edge"
+        else:
+            err = SurfRef(nb, faces_b).validate()
         ctx.check(err is None, what + ":manifold", f"{what}: boundary surface is not a consistently oriented manifold: {err}")
     # closed: every edge in exactly two faces
     cnt = Counter()
@@ -368,10 +804,23 @@ def fn(case, ctx):
         case = dict(case, V=[[x * sc for x in v] for v in case["V"]])     # uniform scale: no answer may depend on it
         ctx.label("scale=%g" % sc)
     V, Cl = case["V"], case["C"]
+    # exact geometry ends: the library sees the translated / squeezed coordinates, the orientation oracle the original ones (translation and
+    # a positive axis scale do not change which side of a face its cell is on, and both are exact in floating point by construction)
+    if case.get("offset"):
+        o = case["offset"]
+        Vlib = [[x + t for x, t in zip(v, o)] for v in V]
+        if all(float(x) - t == y for vl, v in zip(Vlib, V) for x, y, t in zip(vl, v, o)):      # (always, for the grid coordinates the strategy stores)
+            case = dict(case, Vlib=Vlib)
+            ctx.label("geometry=translated-by-up-to-2**40")
+    elif case.get("squeeze"):
+        ax, k = case["squeeze"]
+        case = dict(case, Vlib=[[x * 2.0 ** -k if i == ax else x for i, x in enumerate(v)] for v in V])
+        ctx.label("geometry=one-axis-squeezed-by-2**-%d" % k)
     ref = TetRef(len(V), Cl)
     for t in case.get("tags", []):
         ctx.label(t)
-    ctx.label("sort=" + str(case["sort"]), "via=" + str(case.get("via")), "ids=" + ("numpy" if case.get("np_ids") else "int"), "form=" + case.get("form", "list"))
+    ctx.label("sort=" + str(case["sort"]), "via=" + str(case.get("via")), "ids=" + id_type_of(case), "form=" + case.get("form", "list"),
+              "vform=" + case.get("vform", "list"), "flags-as=" + case.get("flag_form", "bool"), "ctor=" + ("keyword" if case.get("ctor_kw") else "positional"))
     if case.get("pre_border"): ctx.label("pre-existing-border-attributes=" + case["pre_border"])
     if case.get("dup_warn"): ctx.label("duplicate-attribute-switch-on")
     ctx.label("first=" + case["queries"][0][0])
@@ -383,104 +832,191 @@ def fn(case, ctx):
         return
     info = (mfaces, fid, medges, eid)
     for i, q in enumerate(case["queries"]):
-        do_query(m, ref, info, case["sort"], q, ctx, f"query #{i} (after {[x[0] for x in case['queries'][:i]][-3:]})")
+        where = f"query #{i} (after {[x[0] for x in case['queries'][:i]][-3:]})"
+        do_query(m, ref, info, case["sort"], q, ctx, where)
+        if len(q) > 3 and q[3] % 5 == 0:
+            do_query(m, ref, info, case["sort"], q, ctx, where + " issued a second time")      # the answer was read; the same question again
 
     m2 = build(case)
     rnd = random.Random(case["sweep_seed"])
     kinds = list(KINDS); rnd.shuffle(kinds)
     nV, nC, nF, nE = len(V), len(Cl), len(mfaces), len(medges)
+
+    def some(n, k=24):
+        """all ids below n, or the first, the last and a sample"""
+        return list(range(n)) if n <= k else sorted(set([0, 1, n - 2, n - 1] + [rnd.randrange(n) for _ in range(k - 4)]))
+
     for kind in kinds:
-        if kind in ("face_to_cells", "is_face_on_border", "is_face_on_border_v", "face_id"):
+        if kind in ("face_to_cells", "is_face_on_border", "is_face_on_border_v"):
             qs = [[kind, f, rnd.randrange(100)] for f in range(nF)]
+        elif kind == "face_id":
+            # every face: unpacked, as one re-iterable container, as one one-shot iterator (forms drawn per face); tuples that are no face in drawn forms
+            qs = [[kind, f, rnd.randrange(100), 1, form] for f in range(nF) for form in ("unpacked", rnd.choice(REITERABLE_FORMS), rnd.choice(ONE_SHOT_FORMS))]
+            qs += [[kind, rnd.randrange(10 ** 4), rnd.randrange(10 ** 4), 4 * rnd.randrange(10 ** 4)] for _ in range(6)]
+            rnd.shuffle(qs)
         elif kind in ("cell_to_face", "cell_to_cell", "cell_to_edge", "cell_to_vertex"):
             qs = [[kind, c, 0] for c in range(nC)]
         elif kind in ("edge_to_cell", "edge_to_face", "is_edge_on_border"):
             qs = [[kind, e, 0] for e in range(nE)]
-        elif kind in ("is_edge_on_border_uv", "edge_id"):
+        elif kind == "is_edge_on_border_uv":
             qs = [[kind, e, o] for e in range(nE) for o in (0, 1)]
+        elif kind == "edge_id":
+            qs = [[kind, e, o, 1 + (e + o) % 2] for e in range(nE) for o in (0, 1)] + [[kind, rnd.randrange(10 ** 4), rnd.randrange(10 ** 4), 4 * rnd.randrange(1, 100)] for _ in range(6)]
         elif kind in ("vertex_to_cell", "is_vertex_on_border"):
             qs = [[kind, v, 0] for v in range(nV)]
         elif kind in ("in_cell_index", "in_cell_face_index", "other_face_side"):
-            qs = [[kind, c, b] for c in range(nC) for b in (1, 2, 4, 5)] + [[kind, c, 3 * rnd.randrange(50)] for c in range(nC)]
+            qs = [[kind, c, b, 1 + (c + b) % 2] for c in range(nC) for b in (1, 2, 4, 5)] + [[kind, c, 3 * rnd.randrange(50), 1 + c % 2] for c in range(nC)]
         elif kind == "common_face":
             qs = [[kind, c, b] for c in range(nC) for b in (1, 2, 4, 5)] + [[kind, c, 3 * rnd.randrange(50)] for c in range(nC)]
         elif kind == "n_F2C":
             qs = [[kind, f, 0] for f in range(nF)]
         elif kind == "poke_invalid":
             qs = [[kind, rnd.randrange(12), rnd.randrange(40)] for _ in range(3)]
+        elif kind == "chained":
+            # (variants: 0 face, 1 / 2 cell, 3 edge, 4 vertex, 5 border lists)
+            qs = ([[kind, f, 0 + N_CHAIN * rnd.randrange(6)] for f in some(nF)] + [[kind, c, v_ + N_CHAIN * rnd.randrange(6)] for c in some(nC) for v_ in (1, 2)]
+                  + [[kind, e, 3 + N_CHAIN * rnd.randrange(6)] for e in some(nE)] + [[kind, v, 4] for v in some(nV)] + [[kind, rnd.randrange(10 ** 4), 5]])
+            rnd.shuffle(qs)
+        elif kind == "is_tetrahedral":
+            qs = [[kind, 0, 0, 1], [kind, nC - 1, 0, 2]]
+        elif kind == "extract_boundary":
+            qs = [[kind, 0, 0, 1 + rnd.randrange(2)]]
         else:
             qs = [[kind, 0, 0]]
         for q in qs:
             do_query(m2, ref, info, case["sort"], q, ctx, f"sweep (kind order ..{kinds[:kinds.index(kind) + 1][-3:]})")
 
-    # ---- boundary: connectivity object
-    m3 = build(case)
-    ok, _ = ctx.call("boundary:enable", m3.enable_boundary_connectivity)
-    if ok:
-        bc = m3.boundary_connectivity
-        bm = m3.boundary_mesh
-        if ctx.check(bm is not None and bc is not None, "boundary:mesh", "boundary_mesh is None after enable_boundary_connectivity()"):
-            bf = [tuple(ints(f)) for f in bm.faces]
-            b2m_v = dict(bc.b2m_vertex); m2b_v = dict(bc.m2b_vertex)
-            good = ctx.check(sorted(b2m_v) == list(range(len(bm.vertices))) and sorted(m2b_v) == sorted(ref.border_vertices()), "boundary:vmap",
-                             f"vertex maps do not cover boundary vertices: b2m keys {sorted(b2m_v)[:8]}.., m2b keys {sorted(m2b_v)[:8]}..")
-            if good:
-                ctx.check(all(m2b_v[b2m_v[i]] == i for i in b2m_v) and all(b2m_v[m2b_v[v]] == v for v in m2b_v), "boundary:vmap", "m2b_vertex and b2m_vertex are not mutually inverse")
-                Vb = coords(bm); Vm = coords(m3)
-                ctx.check(all(np.array_equal(Vb[i], Vm[b2m_v[i]]) for i in b2m_v), "boundary:vcoords", "a boundary vertex does not have its volume vertex's coordinates")
-                check_boundary_surface(ctx, V, bf, b2m_v, ref, "boundary_mesh", True, None)
-                m2b_f = dict(bc.m2b_face); b2m_f = dict(bc.b2m_face)
-                ctx.check(sorted(m2b_f) == sorted(fid[fk] for fk in ref.border_faces()) and sorted(b2m_f) == list(range(len(bf))), "boundary:fmap", "face maps do not cover exactly the border faces")
-                ctx.check(all(m2b_f.get(b2m_f[i]) == i for i in b2m_f) and all(b2m_f.get(m2b_f[f]) == f for f in m2b_f), "boundary:fmap", "m2b_face / b2m_face not mutually inverse")
-                for i, f in enumerate(bf):
-                    if i in b2m_f and 0 <= b2m_f[i] < len(mfaces):
-                        ctx.check(key(b2m_v[v] for v in f) == mfaces[b2m_f[i]], "boundary:fmap", f"boundary face {i} maps to volume face {b2m_f[i]} with other vertices")
-                m2b_e = dict(bc.m2b_edge); b2m_e = dict(bc.b2m_edge)
-                bedges = [tuple(ints(e)) for e in bm.edges]
-                ctx.check(sorted(m2b_e) == sorted(eid[ek] for ek in ref.border_edges()) and sorted(b2m_e) == list(range(len(bedges))), "boundary:emap",
-                          f"edge maps do not cover exactly the border edges: m2b {sorted(m2b_e)[:8]} b2m {sorted(b2m_e)[:8]} expected {sorted(eid[ek] for ek in ref.border_edges())[:8]}")
-                ctx.check(all(m2b_e.get(b2m_e[i]) == i for i in b2m_e) and all(b2m_e.get(m2b_e[e]) == e for e in m2b_e), "boundary:emap", "m2b_edge / b2m_edge not mutually inverse")
-                for i, (a, b) in enumerate(bedges):
-                    if i in b2m_e and 0 <= b2m_e[i] < len(medges):
-                        ctx.check(key(b2m_v[a], b2m_v[b]) == medges[b2m_e[i]], "boundary:emap", f"boundary edge {i} maps to a volume edge with other end points")
-                # a few answers of the boundary connectivity object, translated to volume ids
-                for v in sorted(ref.border_vertices())[:6]:
-                    ok2, r = ctx.call("boundary:v2v", bc.vertex_to_vertices, v)
-                    if ok2:
-                        exp = sorted(w for w in ref.border_vertices() if key(v, w) in ref.border_edges())
-                        ctx.check(sorted(ints(r)) == exp, "boundary:v2v", f"boundary vertex_to_vertices({v}) = {r}, expected {exp}")
-                    ok2, r = ctx.call("boundary:v2f", bc.vertex_to_faces, v)
-                    if ok2 and r is not None:
-                        exp = sorted(fid[fk] for fk in ref.border_faces() if v in fk)
-                        ctx.check(sorted(ints(r)) == exp, "boundary:v2f", f"boundary vertex_to_faces({v}) = {r}, expected {exp}")
-                    ok2, r = ctx.call("boundary:v2e", bc.vertex_to_edges, v)
-                    if ok2:
-                        exp = sorted(eid[ek] for ek in ref.border_edges() if v in ek)
-                        ctx.check(sorted(ints(r)) == exp, "boundary:v2e", f"boundary vertex_to_edges({v}) = {r}, expected {exp}")
-                for fk in sorted(ref.border_faces())[:6]:
-                    f = fid[fk]
-                    ok2, r = ctx.call("boundary:f2e", bc.face_to_edges, f)
-                    if ok2:
-                        exp = sorted(eid[key(fk[i], fk[(i + 1) % 3])] for i in range(3))
-                        ctx.check(sorted(ints(r)) == exp, "boundary:f2e", f"boundary face_to_edges({f}) = {r}, expected {exp}")
-                    ok2, r = ctx.call("boundary:f2f", bc.face_to_faces, f)
-                    if ok2:
-                        exp = sorted(fid[g] for g in ref.border_faces() if g != fk and len(set(g) & set(fk)) == 2)
-                        ctx.check(sorted(ints(r)) == exp, "boundary:f2f", f"boundary face_to_faces({f}) = {r}, expected {exp}")
-                interior = [f for f in range(len(mfaces)) if len(ref.f2c[mfaces[f]]) == 2][:2]
-                for f in interior:
-                    ok2, r = ctx.call("boundary:f2e-interior", bc.face_to_edges, f)
-                    if ok2:
-                        ctx.check(list(r) == [], "boundary:f2e-interior", f"boundary face_to_edges of interior face {f} = {r}, expected []")
+    # ---- boundary: connectivity object, on a fresh mesh or on one with a history
+    bnd_on, ext_on = case.get("bnd_on", "fresh"), case.get("ext_on", "fresh")
+    ctx.label("boundary-object-on=" + bnd_on, "extractor-on=" + ext_on)
+    m3 = {"queried": m, "swept": m2}.get(bnd_on) or build(case)
+    check_boundary_object(m3, case, ctx, ref, info, V)
 
     # ---- boundary: standalone extractor
-    from mouette.processing import border as B
-    m4 = build(case)
-    ok, res = ctx.call("extract:call", B.extract_boundary_of_volume, m4)
+    m4 = {"queried": m, "swept": m2, "boundary-enabled": m3}.get(ext_on) or build(case)
+    check_extractor(m4, case, ctx, ref, info, V)
+
+
+def check_boundary_object(m3, case, ctx, ref, info, V):
+    mfaces, fid, medges, eid = info
+    conv = id_conv(case)
+    be = info_border_edges(ref)
+    ok, _ = ctx.call("boundary:enable", m3.enable_boundary_connectivity)
+    if ok and case.get("enable_twice"):
+        ctx.label("enable_boundary_connectivity-twice-before-reading")
+        ok, _ = ctx.call("boundary:enable", m3.enable_boundary_connectivity)
+    if not ok:
+        return
+    bc = m3.boundary_connectivity
+    bm = m3.boundary_mesh
+    if not ctx.check(bm is not None and bc is not None, "boundary:mesh", "boundary_mesh is None after enable_boundary_connectivity()"):
+        return
+    bf = [tuple(ints(f)) for f in bm.faces]
+    b2m_v = dict(bc.b2m_vertex); m2b_v = dict(bc.m2b_vertex)
+    good = ctx.check(sorted(b2m_v) == list(range(len(bm.vertices))) and sorted(m2b_v) == sorted(bverts(ref)), "boundary:vmap",
+                     f"vertex maps do not cover boundary vertices: b2m keys {sorted(b2m_v)[:8]}.., m2b keys {sorted(m2b_v)[:8]}..")
+    if not good:
+        return
+    ctx.check(all(m2b_v[b2m_v[i]] == i for i in b2m_v) and all(b2m_v[m2b_v[v]] == v for v in m2b_v), "boundary:vmap", "m2b_vertex and b2m_vertex are not mutually inverse")
+    Vb = coords(bm); Vm = coords(m3)
+    ctx.check(all(np.array_equal(Vb[i], Vm[b2m_v[i]]) for i in b2m_v), "boundary:vcoords", "a boundary vertex does not have its volume vertex's coordinates")
+    check_boundary_surface(ctx, V, bf, b2m_v, ref, "boundary_mesh", True, None)
+    m2b_f = dict(bc.m2b_face); b2m_f = dict(bc.b2m_face)
+    fgood = ctx.check(sorted(m2b_f) == sorted(fid[fk] for fk in bfaces(ref)) and sorted(b2m_f) == list(range(len(bf))), "boundary:fmap", "face maps do not cover exactly the border faces")
+    fgood = ctx.check(all(m2b_f.get(b2m_f[i]) == i for i in b2m_f) and all(b2m_f.get(m2b_f[f]) == f for f in m2b_f), "boundary:fmap", "m2b_face / b2m_face not mutually inverse") and fgood
+    for i, f in enumerate(bf):
+        if i in b2m_f and 0 <= b2m_f[i] < len(mfaces):
+            ctx.check(key(b2m_v[v] for v in f) == mfaces[b2m_f[i]], "boundary:fmap", f"boundary face {i} maps to volume face {b2m_f[i]} with other vertices")
+    m2b_e = dict(bc.m2b_edge); b2m_e = dict(bc.b2m_edge)
+    bedges = [tuple(ints(e)) for e in bm.edges]
+    ctx.check(sorted(m2b_e) == sorted(eid[ek] for ek in be) and sorted(b2m_e) == list(range(len(bedges))), "boundary:emap",
+              f"edge maps do not cover exactly the border edges: m2b {sorted(m2b_e)[:8]} b2m {sorted(b2m_e)[:8]} expected {sorted(eid[ek] for ek in be)[:8]}")
+    ctx.check(all(m2b_e.get(b2m_e[i]) == i for i in b2m_e) and all(b2m_e.get(m2b_e[e]) == e for e in m2b_e), "boundary:emap", "m2b_edge / b2m_edge not mutually inverse")
+    for i, (a, b) in enumerate(bedges):
+        if i in b2m_e and 0 <= b2m_e[i] < len(medges):
+            ctx.check(key(b2m_v[a], b2m_v[b]) == medges[b2m_e[i]], "boundary:emap", f"boundary edge {i} maps to a volume edge with other end points")
+    # a few answers of the boundary connectivity object, translated to volume ids: at the elements with boundary index 0 / last (falsy
+    # index, last iteration), with the smallest / largest volume ids, and a few more
+    sbv = sorted(bverts(ref))
+    vs = list(dict.fromkeys([b2m_v[0], b2m_v[len(b2m_v) - 1]] + sbv[:3] + sbv[-1:]))
+    nb_v = {}
+    for ek in be:
+        nb_v.setdefault(ek[0], []).append(ek[1]); nb_v.setdefault(ek[1], []).append(ek[0])
+    for v in vs:
+        ok2, r = ctx.call("boundary:v2v", bc.vertex_to_vertices, conv(v))
+        if ok2:
+            exp = sorted(nb_v.get(v, []))
+            ctx.check(sorted(ints(r)) == exp, "boundary:v2v", f"boundary vertex_to_vertices({v}) = {r}, expected {exp} (boundary index {m2b_v[v]})")
+        ok2, r = ctx.call("boundary:v2f", bc.vertex_to_faces, conv(v))
+        if ok2 and ctx.check(r is not None, "boundary:v2f", f"boundary vertex_to_faces({v}) = None for a border vertex (boundary index {m2b_v[v]})"):
+            exp = sorted(fid[fk] for fk in bfaces(ref) if v in fk)
+            ctx.check(sorted(ints(r)) == exp, "boundary:v2f", f"boundary vertex_to_faces({v}) = {r}, expected {exp} (boundary index {m2b_v[v]})")
+        ok2, r = ctx.call("boundary:v2e", bc.vertex_to_edges, conv(v))
+        if ok2:
+            exp = sorted(eid[key(v, w)] for w in nb_v.get(v, []))
+            ctx.check(sorted(ints(r)) == exp, "boundary:v2e", f"boundary vertex_to_edges({v}) = {r}, expected {exp} (boundary index {m2b_v[v]})")
+    sbf = sorted(bfaces(ref))
+    fks = [mfaces[b2m_f[0]], mfaces[b2m_f[len(b2m_f) - 1]]] if fgood else []
+    fks = list(dict.fromkeys(fks + sbf[:3] + sbf[-1:] + [mfaces[f] for f in sorted(fid[fk] for fk in sbf)[:1]]))
+    for n_, fk in enumerate(fks):
+        f = fid[fk]
+        ok2, r = ctx.call("boundary:f2e", bc.face_to_edges, conv(f))
+        if ok2:
+            exp = sorted(eid[key(fk[i], fk[(i + 1) % 3])] for i in range(3))
+            ctx.check(sorted(ints(r)) == exp, "boundary:f2e", f"boundary face_to_edges({f}) = {r}, expected {exp} (boundary index {m2b_f.get(f)})")
+        ok2, r = ctx.call("boundary:f2f", bc.face_to_faces, conv(f))
+        if ok2:
+            exp = sorted(fid[g] for g in bfaces(ref) if g != fk and len(set(g) & set(fk)) == 2)
+            ctx.check(sorted(ints(r)) == exp, "boundary:f2f", f"boundary face_to_faces({f}) = {r}, expected {exp} (boundary index {m2b_f.get(f)})")
+        if not fgood:
+            continue
+        brow = bf[m2b_f[f]]
+        ok2, r = ctx.call("boundary:f2v", bc.face_to_vertices, conv(f))
+        if ok2:
+            # (the vertices of the face, as the row of the boundary mesh or translated to the volume: the object answers in boundary ids, its
+            #  siblings in volume ids - both are accepted)
+            r = ints(r)
+            ctx.check(len(r) == 3 and (set(r) == set(brow) or set(r) == set(fk)), "boundary:f2v", f"boundary face_to_vertices({f}) = {r}; the face is {fk} in the volume, {brow} on the boundary")
+        # position of a vertex in the boundary face (the first position is a falsy answer), by position or by the documented names
+        others = [v for v in sbv if v not in fk][:1]
+        for v in list(fk) + others:
+            if (n_ + v) % 2:
+                ok2, r = ctx.call("boundary:in_face_index", bc.in_face_index, conv(f), conv(v))
+            else:
+                ok2, r = ctx.call("boundary:in_face_index", bc.in_face_index, F=conv(f), V=conv(v))
+            if ok2:
+                exp = brow.index(m2b_v[v]) if v in fk else None
+                ctx.check(r == exp and (r is None) == (exp is None), "boundary:in_face_index", f"boundary in_face_index({f},{v}) = {r!r}, expected {exp!r} (boundary row {brow}, vertex {v} has boundary index {m2b_v.get(v)})")
+        # the volume's tables asked with the ids the maps hand out
+        ok2, r = ctx.call("boundary:chained", m3.connectivity.face_to_cells, bc.b2m_face[m2b_f[f]])
+        ok3, r3 = ctx.call("boundary:chained", m3.is_face_on_border, *[bc.b2m_vertex[x] for x in bm.faces[m2b_f[f]]])
+        if ok2 and ok3:
+            ctx.check(ints(r) == ref.f2c[fk] and bool(r3), "boundary:chained", f"face_to_cells(b2m_face[{m2b_f[f]}]) = {r}, is_face_on_border(b2m vertices of boundary face {m2b_f[f]}) = {r3!r}; the face is {fk}")
+    interior = [f for f in range(len(mfaces)) if len(ref.f2c[mfaces[f]]) == 2][:2]
+    for f in interior:
+        ok2, r = ctx.call("boundary:f2e-interior", bc.face_to_edges, conv(f))
+        if ok2:
+            ctx.check(list(r) == [], "boundary:f2e-interior", f"boundary face_to_edges of interior face {f} = {r}, expected []")
+    # everything was read: built once more on the same mesh, it is made of the border faces again
+    ok, _ = ctx.call("boundary:enable-again", m3.enable_boundary_connectivity)
     if ok:
+        bm2, bc2 = m3.boundary_mesh, m3.boundary_connectivity
+        if ctx.check(bm2 is not None and bc2 is not None, "boundary:enable-again", "boundary_mesh is None after a repeated enable_boundary_connectivity()"):
+            b2m2 = dict(bc2.b2m_vertex)
+            got = sorted(key(b2m2.get(v, -1) for v in ints(f)) for f in bm2.faces)
+            ctx.check(got == sorted(bfaces(ref)) and sorted(dict(bc2.m2b_face)) == sorted(m2b_f) and sorted(dict(bc2.m2b_edge)) == sorted(m2b_e), "boundary:enable-again",
+                      "the boundary object built again after its answers were read is not made of the border faces / edges")
+
+
+def check_extractor(m4, case, ctx, ref, info, V):
+    mfaces, fid, medges, eid = info
+    Cl = case["C"]
+    from mouette.processing import border as B
+    ok, res = ctx.call("extract:call", B.extract_boundary_of_volume, m4)
+    if ok and ctx.check(isinstance(res, tuple) and len(res) == 3, "extract:call", f"extract_boundary_of_volume returned {type(res).__name__}, expected (surface, m2b, b2m)"):
         sm, m2b, b2m = res
         sf = [tuple(ints(f)) for f in sm.faces]
-        good = ctx.check(sorted(b2m) == list(range(len(sm.vertices))) and sorted(m2b) == sorted(ref.border_vertices()), "extract:vmap", "vertex maps do not cover the boundary vertices")
+        good = ctx.check(sorted(b2m) == list(range(len(sm.vertices))) and sorted(m2b) == sorted(bverts(ref)), "extract:vmap", "vertex maps do not cover the boundary vertices")
         if good:
             ctx.check(all(m2b[b2m[i]] == i for i in b2m) and all(b2m[m2b[v]] == v for v in m2b), "extract:vmap", "maps not mutually inverse")
             Vb = coords(sm); Vm = coords(m4)
@@ -488,21 +1024,21 @@ def fn(case, ctx):
             allpos = all(GT.lib_det(V, c) > 0 for c in Cl)
             check_boundary_surface(ctx, V, sf, b2m, ref, "extract_boundary_of_volume", allpos, None)
             bedges = set(tuple(ints(e)) for e in sm.edges)
-            ctx.check(bedges == set(key(m2b[a], m2b[b]) for (a, b) in ref.border_edges()), "extract:edges", "edges of the extracted surface are not the mapped border edges")
+            ctx.check(bedges == set(key(m2b[a], m2b[b]) for (a, b) in info_border_edges(ref)), "extract:edges", "edges of the extracted surface are not the mapped border edges")
         # history on the same mesh object: border answers after the extraction, a second extraction, then the connectivity object
         for kind in ("border_faces", "border_edges", "border_vertices"):
             do_query(m4, ref, info, case["sort"], [kind, 0, 0], ctx, "after extract_boundary_of_volume on the same mesh")
         for f in range(min(len(mfaces), 8)):
             do_query(m4, ref, info, case["sort"], ["is_face_on_border", f, 0], ctx, "after extract_boundary_of_volume on the same mesh")
-        ok2, res2 = ctx.call("extract:second-call", B.extract_boundary_of_volume, m4)
+        ok2, res2 = ctx.call("extract:second-call", B.extract_boundary_of_volume, mesh=m4)
         if ok2:
             sf2 = [tuple(ints(f)) for f in res2[0].faces]
-            ctx.check(sorted(key(res2[2][v] for v in f) for f in sf2) == sorted(ref.border_faces()), "extract:second-call",
+            ctx.check(sorted(key(res2[2][v] for v in f) for f in sf2) == sorted(bfaces(ref)), "extract:second-call",
                       "a second extract_boundary_of_volume on the same mesh does not give the border faces")
         ok3, _ = ctx.call("boundary:enable-after-extract", m4.enable_boundary_connectivity)
         if ok3 and m4.boundary_mesh is not None:
             bc4 = m4.boundary_connectivity
-            ctx.check(sorted(key(bc4.b2m_vertex[v] for v in ints(f)) for f in m4.boundary_mesh.faces) == sorted(ref.border_faces()),
+            ctx.check(sorted(key(bc4.b2m_vertex[v] for v in ints(f)) for f in m4.boundary_mesh.faces) == sorted(bfaces(ref)),
                       "boundary:enable-after-extract", "boundary_mesh built after a standalone extraction is not made of the border faces")
 
 
@@ -511,19 +1047,30 @@ def fn(case, ctx):
 def huge_case(draw):
     # a Kuhn grid with fewer than 65536 vertices and more than 65536 cells (24^3 vertices, 73002 cells), or a slab with more
     # than 65536 vertices; a fixed recipe realised in fn (the case stays small)
-    return {"dims": draw(st.sampled_from([[23, 23, 23], [23, 23, 23], [40, 40, 7], [110, 100, 1]])), "sort": draw(st.booleans()),
-            "reverse_cells": draw(st.booleans()), "seed": draw(st.integers(0, 10 ** 6))}
+    # ... or a fan of 66000 cells around ONE edge (dims = ["fan", n, closed]): more than 65536 cells, vertices and border faces, and the
+    # rotational walk around the hub edge has to visit every cell
+    # (the first example of a run is the simplest one = the first element of each list: the closed fan with sorted neighbourhoods is in every run,
+    #  the second example is drawn)
+    return {"dims": draw(st.sampled_from([["fan", 66000, 1], [23, 23, 23], [23, 23, 23], [40, 40, 7], [110, 100, 1], ["fan", 66000, 0]])), "sort": draw(st.sampled_from([True, False])),
+            "reverse_cells": draw(st.booleans()), "seed": draw(st.integers(0, 10 ** 6)), "id_type": draw(st.sampled_from(["int", "int64", "int32"]))}
 
 
 def fn_huge(case, ctx):
     import mouette as M
     M.config.sort_neighborhoods = bool(case["sort"])
     a, b, c = case["dims"]
-    V, C = GT.kuhn(a, b, c)
+    fan = a == "fan"
+    if fan:
+        V, C = GT.around_edge(b, bool(c))
+        C = [list(cl) for cl in C]
+        ctx.label("fan-around-one-edge:" + ("closed" if c else "open"))
+    else:
+        V, C = GT.kuhn(a, b, c)
     if case["reverse_cells"]:
         C = C[::-1]
     ref = TetRef(len(V), C)
-    ctx.label(f"cells>{2 ** 16}" if len(C) > 2 ** 16 else "cells<=65536", f"vertices>{2 ** 16}" if len(V) > 2 ** 16 else "vertices<=65536")
+    conv = id_conv(case)
+    ctx.label(f"cells>{2 ** 16}" if len(C) > 2 ** 16 else "cells<=65536", f"vertices>{2 ** 16}" if len(V) > 2 ** 16 else "vertices<=65536", "ids=" + id_type_of(case))
     ctx.nontrivial(len(C) > 2 ** 16 or len(V) > 2 ** 16)
     m = volume_from(V, C)
     K = m.connectivity
@@ -534,20 +1081,19 @@ def fn_huge(case, ctx):
         for v in cell:
             v2c.setdefault(v, set()).add(ic)
     for v in range(nV):
-        ok, r = ctx.call("huge:vertex_to_cell", K.vertex_to_cell, v)
+        ok, r = ctx.call("huge:vertex_to_cell", K.vertex_to_cell, conv(v))
         if ok and not ctx.check(sorted(ints(r)) == sorted(v2c.get(v, ())), "huge:vertex_to_cell",
-                                f"{a}x{b}x{c} Kuhn grid ({nV} vertices, {nC} cells): vertex_to_cell({v}) = {sorted(ints(r))[:8]}.., expected {sorted(v2c.get(v, ()))[:8]}.."):
+                                f"{a}x{b}x{c} mesh ({nV} vertices, {nC} cells): vertex_to_cell({v}) = {sorted(ints(r))[:8]}.. ({len(r)} cells), expected {sorted(v2c.get(v, ()))[:8]}.. ({len(v2c.get(v, ()))} cells)"):
             return
     cells = sorted(set(list(range(min(nC, 60))) + list(range(max(0, nC - 400), nC)) + [rnd.randrange(nC) for _ in range(400)]))
     fkeys = list(ref.f2c.keys())
     for ic in cells:
-        ok, r = ctx.call("huge:cell_to_cell", K.cell_to_cell, ic)
+        ok, r = ctx.call("huge:cell_to_cell", K.cell_to_cell, conv(ic))
         if ok:
-            cset = set(ref.C[ic])
-            exp = sorted(set(j for v in ref.C[ic] for j in v2c[v] if j != ic and len(cset & set(ref.C[j])) == 3))
+            exp = ref.cell_neighbours(ic)          # (through the face -> cells table of the reference: two cells are neighbours iff they share a face)
             if not ctx.check(sorted(ints(r)) == exp, "huge:cell_to_cell", f"{nC} cells: cell_to_cell({ic}) = {sorted(ints(r))}, expected {exp}"):
                 return
-        ok, r = ctx.call("huge:cell_to_face", K.cell_to_face, ic)
+        ok, r = ctx.call("huge:cell_to_face", K.cell_to_face, conv(ic))
         if ok:
             fl = ints(r)
             good = len(fl) == 4 and all(0 <= f < len(m.faces) for f in fl)
@@ -559,18 +1105,18 @@ def fn_huge(case, ctx):
     nF = len(m.faces)
     ctx.check(nF == len(ref.f2c), "huge:faces", f"{nF} faces, expected {len(ref.f2c)}")
     for f in sorted(set(list(range(min(nF, 50))) + list(range(max(0, nF - 400), nF)) + [rnd.randrange(nF) for _ in range(300)])):
-        ok, r = ctx.call("huge:face_to_cells", K.face_to_cells, f)
+        ok, r = ctx.call("huge:face_to_cells", K.face_to_cells, conv(f))
         if ok:
             exp = sorted(ref.f2c[key(ints(m.faces[f]))])
             got = sorted(ints(r))
             if not ctx.check(got == exp, "huge:face_to_cells", f"{nF} faces: face_to_cells({f}) = {r}, expected {exp}"):
                 return
-    bf = ref.border_faces()
+    bf = bfaces(ref)
     ok, lst = ctx.call("huge:boundary_faces", lambda: m.boundary_faces)
     if ok:
         ctx.check(set(key(ints(m.faces[f])) for f in ints(lst)) == bf and len(lst) == len(bf), "huge:border_faces",
                   f"boundary_faces lists {len(lst)} faces, expected {len(bf)}")
-    bv = ref.border_vertices()
+    bv = bverts(ref)
     ok, lst = ctx.call("huge:boundary_vertices", lambda: m.boundary_vertices)
     if ok:
         ctx.check(set(ints(lst)) == bv and len(lst) == len(bv), "huge:border_vertices", f"boundary_vertices lists {len(lst)} vertices, expected {len(bv)}")
@@ -579,16 +1125,121 @@ def fn_huge(case, ctx):
     medges = [tuple(ints(e)) for e in m.edges]
     for e in sorted(set(list(range(min(ne, 50))) + list(range(max(0, ne - 400), ne)) + [rnd.randrange(ne) for _ in range(300)])):
         u, v = medges[e]
-        ok, r = ctx.call("huge:edge_id", K.edge_id, u, v)
+        ok, r = ctx.call("huge:edge_id", K.edge_id, conv(u), conv(v))
         if ok and not ctx.check(r == e, "huge:edge_id", f"{ne} edges: edge_id({u},{v}) = {r!r}, expected {e}"):
             return
-        ok, r = ctx.call("huge:edge_to_cell", K.edge_to_cell, e)
+        ok, r = ctx.call("huge:edge_to_cell", K.edge_to_cell, conv(e))
         if ok:
             exp = sorted(j for j in v2c[u] & v2c[v])
             if not ctx.check(sorted(ints(r)) == exp, "huge:edge_to_cell", f"edge_to_cell({u},{v}) = {sorted(ints(r))}, expected {exp}"):
                 return
+    if fan:
+        # the hub edge: every cell is around it; with sorted neighbourhoods the walk around it visits all of them in rotational order
+        hub = key(0, 1)
+        ok, e = ctx.call("huge:edge_id", K.edge_id, conv(0), conv(1))
+        if ok and ctx.check(e is not None and medges[e] == hub, "huge:edge_id", f"edge_id(0,1) = {e!r} on the fan"):
+            closed = hub not in info_border_edges(ref)
+            ok, r = ctx.call("huge:hub-edge", K.edge_to_cell, conv(e))
+            if ok:
+                r = ints(r)
+                if ctx.check(sorted(r) == list(range(nC)), "huge:hub-edge", f"fan of {nC} cells: edge_to_cell(hub edge) lists {len(r)} cells ({len(set(r))} distinct)") and case["sort"]:
+                    ctx.check(rot_ok_cells(r, ref, hub, closed), "huge:hub-edge:order", f"fan of {nC} cells: edge_to_cell(hub edge) is not in rotational order (closed={closed}): {r[:6]}..{r[-3:]}")
+            ok, r = ctx.call("huge:hub-edge", K.edge_to_face, conv(e))
+            if ok:
+                r = ints(r)
+                exp = sorted(f for f in range(nF) if 0 in mfaces_h(m, f) and 1 in mfaces_h(m, f))
+                if ctx.check(sorted(r) == exp, "huge:hub-edge", f"fan of {nC} cells: edge_to_face(hub edge) lists {len(r)} faces, expected {len(exp)}") and case["sort"]:
+                    ctx.check(rot_ok_faces([mfaces_h(m, f) for f in r], ref, hub, closed), "huge:hub-edge:order", f"fan of {nC} cells: edge_to_face(hub edge) is not in rotational order (closed={closed})")
+    # boundary extraction at this size: exactly the border faces, closed, mutually inverse vertex maps; the boundary object is oriented outwards
+    from mouette.processing import border as B
+    ok, res = ctx.call("huge:extract", B.extract_boundary_of_volume, m)
+    if ok:
+        sm, m2b, b2m = res
+        got = set(key(b2m.get(v, -1) for v in ints(f)) for f in sm.faces)
+        ctx.check(got == bf and len(sm.faces) == len(bf), "huge:extract", f"extract_boundary_of_volume: {len(sm.faces)} faces ({len(got)} distinct), expected the {len(bf)} border faces")
+        ctx.check(sorted(b2m) == list(range(len(bv))) and sorted(m2b) == sorted(bv) and all(m2b[b2m[i]] == i for i in b2m), "huge:extract", "vertex maps of the extracted surface are not mutually inverse over the border vertices")
+    ok, _ = ctx.call("huge:boundary-object", m.enable_boundary_connectivity)
+    if ok and ctx.check(m.boundary_mesh is not None, "huge:boundary-object", "boundary_mesh is None after enable_boundary_connectivity()"):
+        bc, bm = m.boundary_connectivity, m.boundary_mesh
+        b2m_v = dict(bc.b2m_vertex)
+        faces_b = [tuple(ints(f)) for f in bm.faces]
+        if ctx.check(sorted(b2m_v) == list(range(len(bv))) and set(b2m_v.values()) == bv, "huge:boundary-object", "b2m_vertex does not enumerate the border vertices"):
+            check_boundary_surface(ctx, V, faces_b, b2m_v, ref, "huge:boundary_mesh", True, None, light=True)
+        ctx.check(len(dict(bc.m2b_edge)) == len(info_border_edges(ref)) and len(dict(bc.b2m_face)) == len(bf), "huge:boundary-object",
+                  f"the maps hold {len(dict(bc.m2b_edge))} edges / {len(dict(bc.b2m_face))} faces, expected {len(info_border_edges(ref))} / {len(bf)}")
+
+
+def mfaces_h(m, f):
+    return key(ints(m.faces[f]))
+
+
+# ----------------------------------------------------------------------------- minimal: meshes without cells
+@st.composite
+def minimal_case(draw):
+    return {"ctor": draw(st.sampled_from(["no-argument", "None", "data=None", "empty-RawMeshData", "vertices-only", "vertices-only"])),
+            "nv": draw(st.integers(1, 6)), "sort": draw(st.booleans()), "flag_form": draw(st.sampled_from(list(FLAG_FORMS))),
+            "order": draw(st.permutations(["lists", "extract", "boundary-object", "tables"])), "extract_kw": draw(st.booleans())}
+
+
+def fn_minimal(case, ctx):
+    """a volume mesh without cells: nothing is on the border, the boundary surface is empty (in any order of asking)"""
+    import mouette as M
+    from mouette.mesh.mesh_data import RawMeshData
+    from mouette.processing import border as B
+    M.config.sort_neighborhoods = flag(case, case["sort"])
+    ctor, nv = case["ctor"], 0
+    ctx.label("cells=0", "ctor=" + ctor, "first=" + case["order"][0], "flags-as=" + case["flag_form"])
+    ctx.nontrivial(True)
+    if ctor == "no-argument":
+        ok, m = ctx.call("minimal:constructor", M.mesh.VolumeMesh)
+    elif ctor == "None":
+        ok, m = ctx.call("minimal:constructor", M.mesh.VolumeMesh, None)          # the documented default, spelled out
+    elif ctor == "data=None":
+        ok, m = ctx.call("minimal:constructor", M.mesh.VolumeMesh, data=None)
+    else:
+        raw = RawMeshData()
+        if ctor == "vertices-only":
+            nv = case["nv"]
+            raw.vertices += [[float(i), float(i * i % 3), 0.0] for i in range(nv)]
+        ok, m = ctx.call("minimal:constructor", M.mesh.VolumeMesh, raw)
+    if not ok:
+        return
+    for step in case["order"]:
+        if step == "lists":
+            got = {}
+            for name in ("boundary_faces", "interior_faces", "boundary_edges", "interior_edges", "boundary_vertices", "interior_vertices"):
+                ok, l = ctx.call("minimal:lists", lambda: getattr(m, name))
+                if not ok: return
+                got[name] = as_list(l, name)
+            ctx.check(all(got[k] == [] for k in ("boundary_faces", "interior_faces", "boundary_edges", "interior_edges", "boundary_vertices")), "minimal:lists",
+                      f"a mesh without cells ({nv} vertices) has border / interior elements: { {k: v for k, v in got.items() if v} }")
+            # (a vertex of no cell is not on the border; whether it is listed as interior is not asserted, only that nothing is listed twice)
+            ctx.check(sorted(ints(got["interior_vertices"])) in ([], list(range(nv))), "minimal:lists", f"interior_vertices = {got['interior_vertices']} on a mesh with {nv} vertices and no cell")
+        elif step == "extract":
+            ok, res = ctx.call("minimal:extract", B.extract_boundary_of_volume, mesh=m) if case["extract_kw"] else ctx.call("minimal:extract", B.extract_boundary_of_volume, m)
+            if ok and ctx.check(isinstance(res, tuple) and len(res) == 3, "minimal:extract", f"extract_boundary_of_volume returned {res!r:.100}"):
+                sm, m2b, b2m = res
+                ctx.check(len(sm.faces) == 0 and len(sm.vertices) == 0 and len(m2b) == 0 and len(b2m) == 0, "minimal:extract",
+                          f"the boundary of a mesh without cells has {len(sm.faces)} faces, {len(sm.vertices)} vertices, maps {dict(m2b)} / {dict(b2m)}")
+        elif step == "boundary-object":
+            ok, _ = ctx.call("minimal:boundary-object", m.enable_boundary_connectivity)
+            if ok and ctx.check(m.boundary_mesh is not None, "minimal:boundary-object", "boundary_mesh is None after enable_boundary_connectivity()"):
+                bc, bm = m.boundary_connectivity, m.boundary_mesh
+                ctx.check(len(bm.faces) == 0 and len(bm.vertices) == 0 and not any(len(d) for d in (bc.m2b_vertex, bc.b2m_vertex, bc.m2b_face, bc.b2m_face, bc.m2b_edge, bc.b2m_edge)),
+                          "minimal:boundary-object", f"the boundary object of a mesh without cells is not empty: {len(bm.faces)} faces, {len(bm.vertices)} vertices")
+        else:
+            for v in range(nv):
+                ok, r = ctx.call("minimal:tables", m.connectivity.vertex_to_cell, v)
+                ok2, r2 = ctx.call("minimal:tables", m.is_vertex_on_border, v)
+                if ok and ok2:
+                    ctx.check(as_list(r, "vertex_to_cell") == [] and not bool(r2), "minimal:tables", f"vertex {v} of a mesh without cells: vertex_to_cell = {r}, is_vertex_on_border = {r2!r}")
+            ok, r = ctx.call("minimal:tables", m.connectivity.face_id, 0, 1, 2)
+            ok2, r2 = ctx.call("minimal:tables", m.connectivity.edge_id, 0, 1)
+            if ok and ok2:
+                ctx.check(r is None and r2 is None, "minimal:tables", f"face_id(0,1,2) = {r!r}, edge_id(0,1) = {r2!r} on a mesh without cells")
 
 
 SUBCHECKS = [SubCheck("volume_queries", case_strategy(), fn, quick=600, thorough=1500),
-             SubCheck("huge", huge_case(), fn_huge, quick=1, thorough=1, watchdog=(300, 600))]
+             SubCheck("minimal", minimal_case(), fn_minimal, quick=48, thorough=60),
+             SubCheck("huge", huge_case(), fn_huge, quick=1, thorough=1, watchdog=(600, 1200))]
 MATCHERS = {}
